@@ -2437,3 +2437,68 @@ Proof.
   - rewrite N.div_mul by exact Hc. rewrite N.mul_1_r. reflexivity.
   - reflexivity.
 Qed.
+
+Lemma allocs_rev l : allocs (rev l) = rev (allocs l).
+Proof.
+  unfold allocs. induction l as [|e l IH]; [reflexivity|]. cbn [rev filter]. rewrite filter_app, IH. cbn [filter].
+  destruct (is_alloc_event e); cbn [rev]; [reflexivity|apply app_nil_r].
+Qed.
+Lemma aextends_trace_of s s' evs : aextends s s' evs -> allocs (trace_of s') = allocs (trace_of s) ++ evs.
+Proof.
+  unfold aextends, trace_of. intros H. rewrite !allocs_rev, H, rev_app_distr, rev_involutive. reflexivity.
+Qed.
+
+(* the plans consist of text copies and zero-initialised list nodes only *)
+Definition text_or_node (r : areq) : Prop := match r with RText _ | RNode true => True | _ => False end.
+Lemma text_req_kind o : Forall text_or_node (text_req o).
+Proof. destruct o as [[|c x]|]; repeat constructor. Qed.
+Lemma segs_req_kind l : Forall text_or_node (segs_req l).
+Proof. unfold segs_req. induction l as [|t l IH]; cbn [flat_map]; [constructor|]. apply Forall_app. split; [apply text_req_kind|exact IH]. Qed.
+Lemma engine_plan_kind d u : Forall text_or_node (engine_plan d u).
+Proof.
+  unfold engine_plan. repeat (apply Forall_app; split);
+    repeat match goal with |- context [if ?b then _ else _] => destruct b end;
+    try destruct (ipFuture u); try apply text_req_kind; try apply segs_req_kind; constructor.
+Qed.
+Lemma owner_plan_kind u : Forall text_or_node (owner_plan u).
+Proof. apply engine_plan_kind. Qed.
+Lemma rds_plan_kind u : Forall text_or_node (rds_plan u).
+Proof. unfold rds_plan. match goal with |- context [if ?b then _ else _] => destruct b end; repeat constructor. Qed.
+Lemma normalize_plan_b_kind mask u : Forall text_or_node (normalize_plan_b mask u).
+Proof.
+  unfold normalize_plan_b. cbv zeta.
+  apply Forall_app; split; [|apply Forall_app; split; [|apply Forall_app; split; [|apply Forall_app; split;
+    [|apply Forall_app; split; [|apply Forall_app; split; [|apply engine_plan_kind]]]]]].
+  - destruct (bit mask M_SCHEME); [apply text_req_kind|constructor].
+  - unfold nhost_plan. destruct (bit mask M_HOST); [|constructor].
+    match goal with |- context [match ipFuture ?x with _ => _ end] => destruct (ipFuture x); [apply text_req_kind|] end.
+    match goal with |- context [match hostText ?x with _ => _ end] => destruct (hostText x), (ip4 x), (ip6 x) end;
+      try apply text_req_kind; constructor.
+  - destruct (bit mask M_USER_INFO); [apply text_req_kind|constructor].
+  - unfold npath_plan. destruct (bit mask M_PATH); [|constructor]. apply Forall_app. split; [apply segs_req_kind|apply rds_plan_kind].
+  - destruct (bit mask M_QUERY); [apply text_req_kind|constructor].
+  - destruct (bit mask M_FRAGMENT); [apply text_req_kind|constructor].
+Qed.
+Lemma normalize_plan_o_kind mask u : Forall text_or_node (normalize_plan_o mask u).
+Proof. unfold normalize_plan_o. destruct (bit mask M_PATH); [apply rds_plan_kind|constructor]. Qed.
+
+Lemma trace_chars_two c1 c2 plan : c1 <> 0%N -> c2 <> 0%N -> Forall text_or_node plan ->
+  trace_chars c1 (map (req_event c1) plan) = trace_chars c2 (map (req_event c2) plan).
+Proof. intros H1 H2 Hp. rewrite !trace_chars_plan by assumption. reflexivity. Qed.
+
+(* two runs of make-owner with different character sizes, on any two fault-free ledgers *)
+Lemma make_owner_two_sizes c1 c2 m s1 s2 :
+  c1 <> 0%N -> c2 <> 0%N -> nofault s1 -> nofault s2 -> m_owner m = false -> mwf_host m -> text_blocks m = [] ->
+  let r1 := make_owner_m c1 m s1 in let r2 := make_owner_m c2 m s2 in
+  fst (fst r1) = fst (fst r2)
+  /\ erase (snd (fst r1)) = erase (snd (fst r2))
+  /\ trace_chars c1 (new_events s1 (snd r1)) = trace_chars c2 (new_events s2 (snd r2)).
+Proof.
+  intros H1 H2 N1 N2 Ho Hh Hb.
+  destruct (make_owner_m_borrowed c1 m s1 N1 Ho Hh Hb) as (m1 & z1 & E1 & R1 & _).
+  destruct (make_owner_m_borrowed c2 m s2 N2 Ho Hh Hb) as (m2 & z2 & E2 & R2 & _).
+  pose proof (extends_new_events _ _ _ (make_owner_m_trace c1 _ _ _ _ _ N1 Ho Hh Hb E1)) as T1.
+  pose proof (extends_new_events _ _ _ (make_owner_m_trace c2 _ _ _ _ _ N2 Ho Hh Hb E2)) as T2.
+  cbv zeta. rewrite E1, E2. cbn [fst snd]. rewrite T1, T2, R1, R2.
+  split; [reflexivity|]. split; [reflexivity|]. apply trace_chars_two; try assumption. apply owner_plan_kind.
+Qed.
